@@ -338,14 +338,7 @@ Section Rank.
       rewrite Hi2, Hj2 in Hord. exact Hord.
   Qed.
 
-  (* the boolean predicate the implementation's output is judged with *)
-  Definition is_perm_b (n : nat) (r : list nat) : bool :=
-    (length r =? n) && forallb (fun k => existsb (Nat.eqb k) r) (seq 0 n).
-  Definition orders_b (a : list (T N)) (r : list nat) : bool :=
-    forallb (fun i => forallb (fun j => implb (nth i r 0 <? nth j r 0) (leb (nth i a zero) (nth j a zero)))
-                              (seq 0 (length a))) (seq 0 (length a)).
-  Definition rank_okb (a : list (T N)) (r : list nat) : bool := is_perm_b (length a) r && orders_b a r.
-
+  (* the boolean predicate the implementation's output is judged with: Model/Geometry.v rank_okb *)
   Theorem rank_okb_holds (a : list (T N)) (temp : list nat) : sorts a temp -> rank_okb a (rank_of_perm temp) = true.
   Proof.
     intros Hs. destruct (rank_perm a temp Hs) as (Hlen & _ & Hp & Hord). unfold rank_okb, is_perm_b, orders_b.
@@ -370,5 +363,20 @@ Section Rank.
     - intros i j Hi Hj Hlt. rewrite forallb_forall in Ho. specialize (Ho i ltac:(apply in_seq; lia)).
       rewrite forallb_forall in Ho. specialize (Ho j ltac:(apply in_seq; lia)).
       apply Nat.ltb_lt in Hlt. rewrite Hlt in Ho. exact Ho.
+  Qed.
+  (* a decidable form of `sorts` (for closed examples) *)
+  Definition sortsb (a : list (T N)) (temp : list nat) : bool :=
+    is_perm_b (length a) temp &&
+    forallb (fun j => forallb (fun i => implb (i <? j) (leb (nth (nth i temp 0) a zero) (nth (nth j temp 0) a zero)))
+                              (seq 0 (length a))) (seq 0 (length a)).
+  Lemma sortsb_sound (a : list (T N)) (temp : list nat) : sortsb a temp = true -> sorts a temp.
+  Proof.
+    unfold sortsb, is_perm_b. rewrite !andb_true_iff. intros [[Hl Hex] Ho]. apply Nat.eqb_eq in Hl. split.
+    - apply Permutation_sym. apply NoDup_Permutation_bis; [apply seq_NoDup|rewrite seq_length; lia|].
+      intros k Hk. rewrite forallb_forall in Hex. specialize (Hex k Hk). apply existsb_exists in Hex.
+      destruct Hex as [x [Hx E]]. apply Nat.eqb_eq in E. subst. exact Hx.
+    - intros i j Hij Hj. rewrite forallb_forall in Ho. specialize (Ho j ltac:(apply in_seq; lia)).
+      rewrite forallb_forall in Ho. specialize (Ho i ltac:(apply in_seq; lia)).
+      apply Nat.ltb_lt in Hij. rewrite Hij in Ho. exact Ho.
   Qed.
 End Rank.
